@@ -915,6 +915,10 @@ def oracle_C13(scn, tr):
             elif st == -5:
                 if depth_hi < cap:
                     fails.append('trigger refused with BUFFER_FULL although at most %d of %d slots can be occupied' % (depth_hi, cap))
+            elif st == -2:
+                # ERROR_MUTEX_UNLOCK: the body ran before the unlock failed, so the event may have been queued
+                # (Lemmas_C13: C13_cex_unlock); the upper bound grows, the lower bound does not
+                depth_hi = min(cap, depth_hi + 1)
         elif t[0] == '=' and t[1] == 'u':
             st = int(t[2])
             if st == 0 and depth_lo >= cap:
@@ -1094,7 +1098,8 @@ def oracle_C15_live(scn, tr):
         elif t[0] == '=' and t[1] == 's' and in_drain is not None:
             n_s += 1
             if n_s >= in_drain and t[2] != '0':
-                if not any(x == '= h 2' for x in tr) and not scn.rd and not scn.wr:
+                held = any(x == '= h 2' for x in tr) or any(x[0] == 'H' and x.endswith('-> 4') for x in tr)   # an unreleased hold is not livelock (D5)
+                if not held and not scn.rd and not scn.wr:
                     fails.append('no quiescence after %d cat_service calls with exhausted input and accepting output' % n_s)
     return fails
 
